@@ -33,6 +33,7 @@ type Options struct {
 	ChanScale    int
 	ChanScaleMin int
 	MakeCap      int // cap on make([]T, n) sizes (0 = none)
+	ConstRewrite []ConstRewrite // integer constants of named functions executed with another value (stated in the evidence)
 	Race         bool // happens-before data-race detection
 	Trace        bool
 	KnownPanicSites []KnownSite // panic/deadlock sites listed as known findings
@@ -40,6 +41,14 @@ type Options struct {
 	SinceHook    func(fr *frame) value
 	Params       map[string]int
 	ActiveFindings map[string]bool
+}
+
+// ConstRewrite: inside functions whose full name contains Func, the integer
+// constant From is executed as To (a block size scaled down, like chan_scale).
+type ConstRewrite struct {
+	Func string `json:"func"`
+	From int64  `json:"from"`
+	To   int64  `json:"to"`
 }
 
 type KnownSite struct {
